@@ -3,7 +3,7 @@
  * (a superset of "the k-th allocation fails", property C17) and otherwise
  * returns a fresh object; __jwt_freemem frees.  The real jwt_malloc /
  * __jwt_freemem are verified to be exactly this when the installed allocator
- * is (unit C17.jwt_malloc). */
+ * is (units C17.jwt_malloc, C17.__jwt_freemem, C17.jwt_set_alloc on libjwt/jwt-memory.c). */
 #include <stdlib.h>
 _Bool nondet_bool(void);
 #ifdef VERIF_ALLOC_NEVER_FAILS
